@@ -998,6 +998,7 @@ def fold_delegations(u, unit_name):
                 callers.setdefault(cn, set()).add(f.name)
     rename = {}      # new name -> anchor name
     drop = set()
+    folded_args = {}  # anchor name -> the constants its wrapper passed behind its own parameters
     for F in u.function_list:
         if F.name not in known or F.body is None:
             continue
@@ -1014,6 +1015,7 @@ def fold_delegations(u, unit_name):
         if inorder and rest_const:
             rename[g.name] = F.name
             drop.add(F.name)
+            folded_args[F.name] = list(c['args'][len(F.params):])
     for name in sorted(known - set(u.functions)):
         former = set(kcallers.get(name, ())) - {name}
         cands = []
@@ -1079,4 +1081,5 @@ def fold_delegations(u, unit_name):
         view.function_list.append(nf)
     view.by_decl = {fn.d: fn for fn in view.function_list}
     view.renamed = dict(rename)
+    view.folded_args = folded_args
     return view
